@@ -18,25 +18,105 @@ CLAIM = {
 }
 
 
+KINDS = ["start", "stop", "restart", "set_status", "blk_alloc", "blk_free", "fire", "free"]
+
+
+def valid_sequences(k, nslots=3):
+    """All operation sequences of length k that are meaningful: alloc on a free slot, free of a held
+    blocker, fire only while the reference automaton says active, nothing after free.  The filter only
+    removes sequences whose harness assumptions would be false (they would pass vacuously)."""
+    out = []
+
+    def rec(seq, started, held, freed):
+        if len(seq) == k or freed:
+            if len(seq) == k or freed:
+                out.append(list(seq))
+            return
+        for kind in range(8):
+            idxs = [0]
+            if kind == 4:
+                free_slots = [i for i in range(nslots) if i not in held]
+                idxs = free_slots[:1]           # blockers are interchangeable: lowest free slot
+            elif kind == 5:
+                idxs = sorted(held)
+            elif kind == 6 and not (started and not held):
+                continue
+            for i in idxs:
+                st, h, fr = started, set(held), False
+                if kind in (0, 2):
+                    st = True
+                elif kind == 1:
+                    st = False
+                elif kind == 4:
+                    h.add(i)
+                elif kind == 5:
+                    h.discard(i)
+                elif kind == 6:
+                    st = None               # callback may stop the pump (symbolic): both continuations
+                elif kind == 7:
+                    fr = True
+                if st is None:
+                    rec(seq + [kind * 4 + i], True, h, fr)
+                else:
+                    rec(seq + [kind * 4 + i], st, h, fr)
+    rec([], False, set(), False)
+    # de-duplicate (fire branches generate the same prefix twice)
+    seen, res = set(), []
+    for s in out:
+        t = tuple(s)
+        if t not in seen:
+            seen.add(t)
+            res.append(s)
+    return res
+
+
 def build(tier):
     quick = tier == "quick"
     qs = []
+    n = 0
     for nb in range(4):
-        qs.append(Query(name="step_nblk%d" % nb, harness="C13_pump.c",
-                        defines=["MODE_STEP", "NBLK=%d" % nb, "WITNESS_OP=%d" % [6, 5, 7, 3][nb]],
-                        unwind=6, shims=SHIMS, leak=True, timeout=280,
-                        sample={"mode": "state (started?, status?, %d blockers, blockers before/after start?) all symbolic, then one symbolic op of 8 kinds" % nb}))
-    for k in ([4] if quick else [5, 6]):
-        qs.append(Query(name="seq_k%d" % k, harness="C13_pump.c", defines=["KOPS=%d" % k], unwind=max(6, k + 1),
-                        shims=SHIMS, leak=True, timeout=280 if quick else 2400,
-                        sample={"mode": "all sequences of %d symbolic operations from a fresh pump" % k}))
+        for bf in ((0, 1) if nb else (1,)):
+            for sr in (0, 2):
+                for cop in range(8):
+                    if cop == 4:
+                        idxs = [nb] if nb < 4 else []
+                    elif cop == 5:
+                        idxs = list(range(nb))
+                    else:
+                        idxs = [0]
+                    for idx in idxs:
+                        n += 1
+                        qs.append(Query(name="step_nblk%d_bf%d_sr%d_%s%d" % (nb, bf, sr, KINDS[cop], idx), harness="C13_pump.c",
+                                        defines=["MODE_STEP", "NBLK=%d" % nb, "BF=%d" % bf, "SR=%d" % sr, "COP=%d" % cop, "IDX=%d" % idx],
+                                        unwind=6, shims=SHIMS, leak=True, timeout=280,
+                                        witness=(cop != 6), replay_witness=(n % 16 == 1),
+                                        sample={"mode": "inductive step", "state": {"blockers": nb, "started": "symbolic", "status": "symbolic",
+                                                "blockers_taken_before_start": bool(bf), "started_via": "restart" if sr else "start"},
+                                                "operation": KINDS[cop], "slot": idx, "operation_flag": "symbolic"} if n % 40 == 1 else None))
+    for sr in (0, 2):
+        qs.append(Query(name="dispatch_owner_sr%d" % sr, harness="C13_pump.c", defines=["MODE_DISPATCH", "SR=%d" % sr], unwind=6,
+                        shims=SHIMS, leak=True, timeout=280,
+                        sample={"mode": "loop fires a started pump whose callback drops the owner's last reference (owner's destructor frees the pump)"}))
+    k = 3 if quick else 5
+    seqs = valid_sequences(k)
+    for i, sq in enumerate(seqs):
+        qs.append(Query(name="seq_" + "_".join("%s%d" % (KINDS[c // 4], c % 4) for c in sq), harness="C13_pump.c",
+                        defines=["MODE_SEQ", "OPS=" + ",".join(map(str, sq))], unwind=max(6, k + 1), shims=SHIMS, leak=True,
+                        timeout=280, witness=(i % 25 == 0), replay_witness=(i % 100 == 0),
+                        sample={"mode": "sequence from a fresh pump", "ops": ["%s(%d)" % (KINDS[c // 4], c % 4) for c in sq],
+                                "flags": "symbolic (status value, callback behaviour)"} if i % 300 == 7 else None))
     meta = {
-        "bounds": {"blockers": "0..3 (4 slots)", "step": "1 operation from every abstract state", "sequence_ops": 4 if quick else 6,
+        "bounds": {"blockers": "0..3 held at once (4 slots)", "step": "1 operation from every abstract state",
+                   "sequence_ops": k, "sequences": len(seqs),
                    "pump_type": "idler (the common layer is type-agnostic)"},
+        "exhaustive": True,
+        "rule": "complete case split on the discrete selectors (operation kinds, blocker slot, construction order); sequences are all "
+                "meaningful ones up to blocker symmetry (driver-side filter removes only sequences whose harness assumptions are false); "
+                "started/status/flag values stay symbolic in each query",
         "assumptions": ["blocker callbacks free their blocker (what upipe_helper_input and the queue sink do)",
                         "the loop only fires active watchers (mock_fire), i.e. libev semantics",
-                        "sequential harness shims uatomic_seq.h, upool_depth0.h"],
-        "outside": ["libev glue in upump_ev.c (ev_* calls are external)", "more than 4 simultaneous blockers",
-                    "ecore back end"],
+                        "sequential harness shims uatomic_seq.h, upool_depth0.h",
+                        "blocker slots are interchangeable: alloc uses the lowest free slot"],
+        "outside": ["libev glue in upump_ev.c (ev_* calls are external)", "more than 4 simultaneous blockers", "ecore back end"],
     }
     return qs, meta
